@@ -1,3 +1,4 @@
+import HttpcoreModel.Props.Backend
 import HttpcoreModel.Lemmas.Chunked
 import HttpcoreModel.Url
 /-!
